@@ -212,6 +212,56 @@ pub fn run(ctx: &mut Ctx) {
     });
     ctx.mark_exhaustive("DTLS records: all 65536 declared lengths with complete / header-only / suffixed input");
 
+    // ------------------------------------------------ ChangeCipherSpec and alert records "decode as in TLS" under EVERY record version
+    // (all 65536, not only the named ones): 1..4 ChangeCipherSpec messages, a bad ChangeCipherSpec byte, one and two
+    // alerts; message count, values, header fields and consumption
+    ctx.floor("ccs-alert-versions", 65536 * 7);
+    ctx.sweep("ccs-alert-all-versions", 256, |ctx, idx| {
+        let mut rng = Rng::new(idx ^ 0xCC5A);
+        for lo in 0..256u32 {
+            let ver = ((idx as u32) << 8 | lo) as u16;
+            let cases: [(u8, Vec<u8>, Option<usize>); 7] = [
+                (0x14, vec![1], Some(1)),
+                (0x14, vec![1, 1], Some(2)),
+                (0x14, vec![1, 1, 1], Some(3)),
+                (0x14, vec![1, 1, 1, 1], Some(4)),
+                (0x14, vec![0, 1, 1], None),
+                (0x15, vec![1, 0], Some(1)),
+                (0x15, vec![2, 40, 1, rng.u8()], Some(2)),
+            ];
+            for (ty, payload, want) in cases.iter() {
+                let h = ADtlsRecordHdr { ty: *ty, ver, epoch: rng.u16(), seq: rng.next_u64() & 0xffff_ffff_ffff };
+                let mut input = refenc::dtls_record(&h, payload);
+                let el = input.len();
+                input.extend_from_slice(&[0x16, 0xfe]);
+                let r = parse_dtls_plaintext_record(&input);
+                ctx.eval();
+                ctx.count("ccs-alert-versions");
+                let good = match (&r, want) {
+                    (Ok((rem, rec)), Some(n)) => {
+                        let vals_ok = rec.messages.len() == *n
+                            && rec.messages.iter().enumerate().all(|(k, m)| match (ty, m) {
+                                (0x14, DTLSMessage::ChangeCipherSpec) => true,
+                                (0x15, DTLSMessage::Alert(a)) => a.severity.0 == payload[2 * k] && a.code.0 == payload[2 * k + 1],
+                                _ => false,
+                            });
+                        vals_ok && rem.len() == 2 && rem.as_ptr() == input[el..].as_ptr() && rec.header.version.0 == ver && rec.header.content_type.0 == *ty && rec.header.length as usize == payload.len()
+                    }
+                    (Ok(_), None) => false,
+                    (Err(_), None) => true,
+                    (Err(_), Some(_)) => false,
+                };
+                if !good {
+                    ctx.violation(
+                        format!("c10:ccs-alert-all-versions:ct=0x{:02x}", ty),
+                        json!({"record_version": ver, "content_type": ty, "payload_hex": hex_short(payload), "messages_expected": want, "outcome": classify(&r).show(), "messages_returned": r.as_ref().ok().map(|x| x.1.messages.len())}),
+                    );
+                }
+            }
+        }
+        ctx.shape(&("ccs-alert-versions", idx / 16));
+    });
+
     // ------------------------------------------------ all epochs, sequence-number bit patterns
     ctx.sweep("sweep-epoch-seq", 16, |ctx, idx| {
         let mut rng = Rng::new(idx ^ 0xE90C);
